@@ -1359,6 +1359,7 @@ Proof.
     rewrite hd_set_while in Hx. injection Hx as <-.
     assert (Hlast : last (map (set_cluster c) (e :: seg)) dflt = set_cluster c (last (e :: seg) e)) by (apply last_map; discriminate).
     rewrite Hlast in *. rewrite cl_set_cluster. rewrite cont_set_cluster in Hc.
+    change (match seg with [] => e | _ :: _ => last seg e end) with (last (e :: seg) e) in *.
     destruct (cl o =? cl (last (e :: seg) e)) eqn:Eo; [rewrite cl_set_cluster; reflexivity|].
     exfalso. apply N.eqb_neq in Eo. apply Eo. symmetry.
     assert (Hl2 : last (e :: seg) dflt = last (e :: seg) e) by (apply last_dflt_irrel; discriminate).
@@ -1428,8 +1429,10 @@ Proof.
     + destruct (skipn k l) as [|b B]; [exact I|]. cbn [adj_ok]. split; [cbn; discriminate|exact HB].
     + intros x Hne Hx Hc. cbn in Hx. injection Hx as <-. cbn [cl set_cont].
       rewrite Forall_forall in H3. apply H3. apply last_in. exact Hne.
-  - rewrite firstn_app, HLk. replace (S k - k)%nat with 1%nat by lia. cbn [firstn].
-    rewrite firstn_all2 by lia. apply Forall_app. split; [exact H3|]. constructor; [reflexivity|constructor].
+  - rewrite firstn_app, HLk. replace (S k - k)%nat with 1%nat by lia.
+    replace (firstn (S k) (firstn k l)) with (firstn k l) by (symmetry; apply firstn_all2; lia).
+    change (firstn 1 (set_cont false t :: skipn k l)) with [set_cont false t].
+    apply Forall_app. split; [exact H3|]. constructor; [reflexivity|constructor].
 Qed.
 
 Lemma move_Adj lvl p q : lvl = HANGUL_MERGE_LEVEL -> move lvl p q -> Adj p -> Adj q.
@@ -1482,3 +1485,315 @@ Proof.
   - exact Hs.
   - apply adj_ok_forward. exact (proj1 HP).
 Qed.
+
+(* ---------------- G3. non-decreasing input clusters give non-decreasing output clusters (levels 0, 1) *)
+Fixpoint up (l : list info) : Prop :=
+  match l with a :: t => Forall (fun b => cl a <= cl b) t /\ up t | [] => True end.
+Fixpoint down (l : list info) : Prop :=
+  match l with a :: t => Forall (fun b => cl b <= cl a) t /\ down t | [] => True end.
+Definition Mono (p : pr) : Prop :=
+  down (fst p) /\ up (snd p) /\ (forall a b, In a (fst p) -> In b (snd p) -> cl a <= cl b).
+
+Lemma up_cls l : forall l', map cl l' = map cl l -> up l -> up l'.
+Proof.
+  induction l as [|a l IH]; intros [|a' l'] E H; try discriminate; [exact I|].
+  cbn in E. injection E as E1 E2. cbn [up] in *. destruct H as (H1 & H2). split; [|eauto].
+  rewrite E1. clear - H1 E2. revert l' E2. induction l as [|b l IH]; intros [|b' l'] E; try discriminate; [constructor|].
+  cbn in E. injection E as E3 E4. inversion H1; subst. constructor; [rewrite E3; assumption|auto].
+Qed.
+Lemma down_cls l : forall l', map cl l' = map cl l -> down l -> down l'.
+Proof.
+  induction l as [|a l IH]; intros [|a' l'] E H; try discriminate; [exact I|].
+  cbn in E. injection E as E1 E2. cbn [down] in *. destruct H as (H1 & H2). split; [|eauto].
+  rewrite E1. clear - H1 E2. revert l' E2. induction l as [|b l IH]; intros [|b' l'] E; try discriminate; [constructor|].
+  cbn in E. injection E as E3 E4. inversion H1; subst. constructor; [rewrite E3; assumption|auto].
+Qed.
+Lemma in_cls l l' x : map cl l' = map cl l -> In x l' -> exists y, In y l /\ cl y = cl x.
+Proof.
+  intros E Hx. assert (Hc : In (cl x) (map cl l)) by (rewrite <- E; apply in_map; exact Hx).
+  apply in_map_iff in Hc. destruct Hc as (y & Hy & Hin). eauto.
+Qed.
+Lemma Mono_cls ro re ro' re' : map cl ro' = map cl ro -> map cl re' = map cl re -> Mono (ro, re) -> Mono (ro', re').
+Proof.
+  intros E1 E2 (D & U & X). cbn [fst snd] in *. repeat split; cbn [fst snd].
+  - eapply down_cls; eassumption.
+  - eapply up_cls; eassumption.
+  - intros a b Ha Hb. destruct (in_cls _ _ _ E1 Ha) as (a0 & Ha0 & <-). destruct (in_cls _ _ _ E2 Hb) as (b0 & Hb0 & <-). auto.
+Qed.
+
+Lemma up_tail a l : up (a :: l) -> up l.
+Proof. cbn. tauto. Qed.
+Lemma up_skipn n : forall l, up l -> up (skipn n l).
+Proof. induction n; intros [|a l] H; cbn [skipn]; auto. apply IHn. exact (up_tail _ _ H). Qed.
+Lemma in_skipn {A} n (l : list A) x : In x (skipn n l) -> In x l.
+Proof. intros H. rewrite <- (firstn_skipn n l). apply in_or_app. right. exact H. Qed.
+Lemma in_firstn {A} n (l : list A) x : In x (firstn n l) -> In x l.
+Proof. intros H. rewrite <- (firstn_skipn n l). apply in_or_app. left. exact H. Qed.
+Lemma up_app_inv A : forall B, up (A ++ B) -> up A /\ up B /\ (forall a b, In a A -> In b B -> cl a <= cl b).
+Proof.
+  induction A as [|x A IH]; intros B H; [cbn in *; repeat split; [exact H|intros ? ? []]|].
+  cbn [app up] in H. destruct H as (H1 & H2). destruct (IH B H2) as (Ha & Hb & Hx).
+  apply Forall_app in H1. destruct H1 as (H1a & H1b).
+  repeat split; [exact H1a|exact Ha|exact Hb|]. intros a b [<-|Ha'] Hb'; [|auto].
+  rewrite Forall_forall in H1b. auto.
+Qed.
+Lemma down_app_inv A : forall B, down (A ++ B) -> down A /\ down B /\ (forall a b, In a A -> In b B -> cl b <= cl a).
+Proof.
+  induction A as [|x A IH]; intros B H; [cbn in *; repeat split; [exact H|intros ? ? []]|].
+  cbn [app down] in H. destruct H as (H1 & H2). destruct (IH B H2) as (Ha & Hb & Hx).
+  apply Forall_app in H1. destruct H1 as (H1a & H1b).
+  repeat split; [exact H1a|exact Ha|exact Hb|]. intros a b [<-|Ha'] Hb'; [|auto].
+  rewrite Forall_forall in H1b. auto.
+Qed.
+Lemma up_app_const c A : forall B, Forall (fun x => cl x = c) A -> up B -> Forall (fun x => c <= cl x) B -> up (A ++ B).
+Proof.
+  induction A as [|a A IH]; intros B HA HB HC; [exact HB|]. inversion HA; subst.
+  cbn [app up]. split; [|apply IH; assumption]. apply Forall_app. split.
+  - eapply Forall_impl; [|exact H2]. cbn. intros x ->. lia.
+  - exact HC.
+Qed.
+Lemma down_app_const c A : forall B, Forall (fun x => cl x = c) A -> down B -> Forall (fun x => cl x <= c) B -> down (A ++ B).
+Proof.
+  induction A as [|a A IH]; intros B HA HB HC; [exact HB|]. inversion HA; subst.
+  cbn [app down]. split; [|apply IH; assumption]. apply Forall_app. split.
+  - eapply Forall_impl; [|exact H2]. cbn. intros x ->. lia.
+  - exact HC.
+Qed.
+Lemma Forall_map_set_cluster c l : Forall (fun x => cl x = c) (map (set_cluster c) l).
+Proof. apply Forall_forall. intros x Hx. apply in_map_iff in Hx. destruct Hx as (y & <- & _). apply cl_set_cluster. Qed.
+
+Lemma up_set_while k c l : up l -> Forall (fun x => k <= cl x) l -> c <= k ->
+  up (set_while k c l) /\ Forall (fun x => c <= cl x) (set_while k c l).
+Proof.
+  intros U F Hc. induction l as [|x l IH]; [split; constructor|].
+  inversion F; subst. cbn [set_while]. destruct (cl x =? k) eqn:E.
+  - destruct (IH (up_tail _ _ U) H2) as (IH1 & IH2). split.
+    + cbn [up]. split; [|exact IH1]. rewrite cl_set_cluster. exact IH2.
+    + constructor; [rewrite cl_set_cluster; lia|exact IH2].
+  - split; [exact U|]. eapply Forall_impl; [|exact F]. cbn. intros. lia.
+Qed.
+Lemma min_cl_ge l : forall d, Forall (fun x => d <= cl x) l -> min_cl d l = d.
+Proof.
+  unfold min_cl. induction l as [|x l IH]; intros d F; [reflexivity|]. inversion F; subst. cbn [fold_left].
+  replace (N.min d (cl x)) with d by lia. apply IH. assumption.
+Qed.
+Lemma min_cl_down l : forall d, down l -> l <> [] -> min_cl d l = N.min d (cl (last l dflt)).
+Proof.
+  unfold min_cl. induction l as [|x l IH]; intros d D Hne; [congruence|]. cbn [fold_left].
+  destruct l as [|y l0]; [reflexivity|]. cbn [down] in D. destruct D as (D1 & D2).
+  rewrite IH; [|exact D2|discriminate].
+  change (last (x :: y :: l0) dflt) with (last (y :: l0) dflt).
+  assert (Hl : cl (last (y :: l0) dflt) <= cl x).
+  { rewrite Forall_forall in D1. apply D1. apply last_in. discriminate. }
+  lia.
+Qed.
+
+Lemma Mono_merge_clusters lvl n ro re : lvl <> LEVEL_CHARACTERS -> Mono (ro, re) -> Mono (merge_clusters lvl n ro re).
+Proof.
+  intros Hl (D & U & X). cbn [fst snd] in *. unfold merge_clusters. destruct (n <? 2)%nat eqn:En; [repeat split; assumption|].
+  apply Nat.ltb_ge in En.
+  assert (Hseg : firstn n re <> [] \/ re = []) by (destruct re; [right; reflexivity|left; destruct n; [lia|cbn; discriminate]]).
+  destruct re as [|f t]; [repeat split; assumption|].
+  apply N.eqb_neq in Hl. rewrite Hl.
+  set (seg := firstn n (f :: t)). set (after := skipn n (f :: t)).
+  assert (Hall : Forall (fun x => cl f <= cl x) (f :: t)) by (constructor; [lia|exact (proj1 U)]).
+  assert (Hc : min_cl (cl f) seg = cl f) by (apply min_cl_ge, Forall_firstn, Hall).
+  rewrite Hc. rewrite N.eqb_refl. cbn [negb].
+  assert (Hsplit : up (seg ++ after)) by (unfold seg, after; rewrite firstn_skipn; exact U).
+  apply up_app_inv in Hsplit. destruct Hsplit as (_ & Ua & Xsa).
+  assert (Fa : Forall (fun x => cl f <= cl x) after) by (apply Forall_skipn, Hall).
+  set (after' := if negb (cl f =? cl (last seg f)) then set_while (cl (last seg f)) (cl f) after else after).
+  assert (Ha' : up after' /\ Forall (fun x => cl f <= cl x) after').
+  { subst after'. destruct (negb _); [|split; assumption].
+    apply up_set_while; [exact Ua| |].
+    - apply Forall_forall. intros b Hb. apply Xsa; [|exact Hb]. apply last_in. destruct Hseg as [Hs|Hs]; [exact Hs|discriminate].
+    - assert (Hin : In (last seg f) (f :: t)).
+      { apply (in_firstn n). apply last_in. destruct Hseg as [Hs|Hs]; [exact Hs|discriminate]. }
+      rewrite Forall_forall in Hall. apply Hall. exact Hin. }
+  destruct Ha' as (Ua' & Fa').
+  repeat split; cbn [fst snd].
+  - exact D.
+  - apply (up_app_const (cl f)); [apply Forall_map_set_cluster|exact Ua'|exact Fa'].
+  - intros a b Ha Hb. assert (H1 : cl a <= cl f) by (apply X; [exact Ha|left; reflexivity]).
+    apply in_app_or in Hb. destruct Hb as [Hb|Hb].
+    + apply in_map_iff in Hb. destruct Hb as (y & <- & _). rewrite cl_set_cluster. exact H1.
+    + rewrite Forall_forall in Fa'. specialize (Fa' b Hb). lia.
+Qed.
+
+Lemma Mono_merge_tail k ro re : Mono (ro, re) -> Mono (merge_tail k ro re).
+Proof.
+  intros (D & U & X). cbn [fst snd] in *. unfold merge_tail.
+  destruct (firstn k ro) as [|e seg] eqn:E; [repeat split; assumption|].
+  assert (Hro : ro = (e :: seg) ++ skipn k ro) by (rewrite <- E; symmetry; apply firstn_skipn).
+  rewrite Hro in D. apply down_app_inv in D. destruct D as (Ds & Do & Xso).
+  change (match seg with [] => e | _ :: _ => last seg e end) with (last (e :: seg) e).
+  rewrite (last_dflt_irrel (e :: seg) e dflt) by discriminate.
+  assert (Hlast_in : In (last (e :: seg) dflt) (e :: seg)) by (apply last_in; discriminate).
+  assert (Hle : cl (last (e :: seg) dflt) <= cl e).
+  { destruct Hlast_in as [<-|Hin]; [lia|]. cbn [down] in Ds. destruct Ds as (Ds1 & _). rewrite Forall_forall in Ds1. auto. }
+  rewrite (min_cl_down (e :: seg) (cl e) Ds) by discriminate.
+  replace (N.min (cl e) (cl (last (e :: seg) dflt))) with (cl (last (e :: seg) dflt)) by lia.
+  set (c := cl (last (e :: seg) dflt)) in *. rewrite set_while_same.
+  assert (He_in : In e ro) by (apply (in_firstn k); rewrite E; left; reflexivity).
+  destruct (up_set_while (cl e) c re U) as (U' & F'); [apply Forall_forall; intros b Hb; apply X; assumption|exact Hle|].
+  split; [|split]; cbn [fst snd].
+  - apply (down_app_const c); [apply Forall_map_set_cluster|exact Do|].
+    apply Forall_forall. intros b Hb. apply Xso; assumption.
+  - exact U'.
+  - intros a b Ha Hb. rewrite Forall_forall in F'. specialize (F' b Hb).
+    apply in_app_or in Ha. destruct Ha as [Ha|Ha].
+    + apply in_map_iff in Ha. destruct Ha as (y & <- & _). rewrite cl_set_cluster. exact F'.
+    + specialize (Xso _ _ Hlast_in Ha). fold c in Xso. lia.
+Qed.
+
+Lemma cls_rotate_same c k ro : Forall (fun x => cl x = c) (firstn (S k) ro) -> map cl (rotate_tone k ro) = map cl ro.
+Proof.
+  destruct ro as [|t l]; [reflexivity|]. change (firstn (S k) (t :: l)) with (t :: firstn k l). intros F. inversion F; subst.
+  cbn [rotate_tone]. rewrite map_app, cls_mark_syl, map_app. cbn [map set_cont cl].
+  rewrite <- (firstn_skipn k l) at 3. rewrite map_app.
+  assert (E : forall A, Forall (fun x => cl x = cl t) A -> map cl A ++ [cl t] = cl t :: map cl A).
+  { induction A as [|a A IH]; intros FA; [reflexivity|]. inversion FA; subst. cbn [map app]. rewrite IH by assumption. congruence. }
+  rewrite <- app_assoc. rewrite (app_assoc (map cl (firstn k l)) [cl t]), E by assumption. reflexivity.
+Qed.
+
+Lemma move_Mono lvl p q : lvl <> LEVEL_CHARACTERS -> move lvl p q -> Mono p -> Mono q.
+Proof.
+  intros Hl M HM. destruct M.
+  - eapply Mono_cls; [apply cl_of_cc| apply cl_of_cc|]; eassumption.
+  - destruct HM as (D & U & X). cbn [fst snd] in *. split; [|split]; cbn [fst snd].
+    + cbn [down]. split; [|exact D]. apply Forall_forall. intros b Hb. rewrite H. apply X; [exact Hb|left; reflexivity].
+    + exact (up_tail _ _ U).
+    + intros a b [<-|Ha] Hb; [rewrite H; cbn [up] in U; destruct U as (U1 & _); rewrite Forall_forall in U1; auto|].
+      apply X; [exact Ha|right; exact Hb].
+  - apply Mono_merge_clusters; assumption.
+  - destruct HM as (D & U & X). cbn [fst snd] in *.
+    assert (Hcop : Forall (fun x => cl x = cl orig) (rev (map (fun g => with_cp g orig) data))).
+    { apply Forall_rev. apply Forall_forall. intros x Hx. apply in_map_iff in Hx. destruct Hx as (g & <- & _). reflexivity. }
+    split; [|split]; cbn [fst snd].
+    + apply (down_app_const (cl orig)); [exact Hcop|exact D|]. apply Forall_forall. intros b Hb. apply X; [exact Hb|left; reflexivity].
+    + apply up_skipn. exact U.
+    + intros a b Ha Hb. apply in_skipn in Hb.
+      assert (Hb' : cl orig <= cl b).
+      { destruct Hb as [<-|Hb]; [lia|]. cbn [up] in U. destruct U as (U1 & _). rewrite Forall_forall in U1. auto. }
+      apply in_app_or in Ha. destruct Ha as [Ha|Ha].
+      * rewrite Forall_forall in Hcop. rewrite (Hcop a Ha). exact Hb'.
+      * assert (cl a <= cl orig) by (apply X; [exact Ha|left; reflexivity]). lia.
+  - destruct (en - st <? 2)%nat eqn:Ek.
+    + unfold merge_out_clusters. apply N.eqb_neq in Hl. rewrite Hl, Ek. exact HM.
+    + rewrite merge_out_tail; [apply Mono_merge_tail; exact HM | exact Hl | assumption | apply Nat.ltb_ge in Ek; exact Ek].
+  - eapply Mono_cls; [apply cls_mark_syl|reflexivity|exact HM].
+  - destruct (H0 Hl) as (c & Hc). eapply Mono_cls; [apply (cls_rotate_same c); exact Hc|reflexivity|exact HM].
+Qed.
+Lemma moves_Mono lvl p q : lvl <> LEVEL_CHARACTERS -> moves lvl p q -> Mono p -> Mono q.
+Proof. intros Hl. induction 1; intros; [assumption|]. apply IHmoves. eapply move_Mono; eassumption. Qed.
+
+Lemma down_rev_up l : down l -> up (rev l).
+Proof.
+  induction l as [|a l IH]; intros D; [exact I|]. cbn [down] in D. destruct D as (D1 & D2). cbn [rev].
+  assert (G : forall A, up A -> Forall (fun b => cl b <= cl a) A -> up (A ++ [a])).
+  { induction A as [|x A IHA]; intros UA FA; [cbn; split; constructor|].
+    inversion FA; subst. cbn [app up] in *. destruct UA as (U1 & U2). split; [|auto].
+    apply Forall_app. split; [exact U1|]. constructor; [assumption|constructor]. }
+  apply G; [apply IH; exact D2|]. apply Forall_rev. exact D1.
+Qed.
+
+Theorem run_monotone has zw lvl nd input out :
+  lvl <> LEVEL_CHARACTERS -> up input -> run has zw lvl nd input = Some out -> up out.
+Proof.
+  unfold run, run_st. intros Hl Hin H. apply bind_some in H. destruct H as (s' & Hs & H). injection H as <-.
+  pose (P := fun s : st => Mono (rout s, rest s)).
+  destruct (loop_inv has zw lvl nd P) with (fuel := length input) (s := mkS [] input 0 0) (s' := s') as (HP & _).
+  - intros s1 s2 H1 H2. unfold P in *. eapply moves_Mono; [exact Hl|eapply step_moves; exact H2|exact H1].
+  - unfold P, Mono. cbn. repeat split; [exact Hin|intros ? ? []].
+  - exact Hs.
+  - apply down_rev_up. exact (proj1 HP).
+Qed.
+
+(* ================================================================== H. corollaries in the wording of the property *)
+
+Lemma arith_all l v t : l < L_COUNT -> v < V_COUNT -> t < T_COUNT ->
+  let s := compose_s (L_BASE + l) (V_BASE + v) t in
+  (s = 44032 + (l * 21 + v) * 28 + t /\ is_combined_s s = true /\
+   lindex_of s = l /\ vindex_of s = v /\ tindex_of s = t) /\
+  (u_compose_hangul (L_BASE + l) (V_BASE + v) = Some (s - t) /\
+   (0 < t -> u_compose_hangul (s - t) (T_BASE + t) = Some s) /\
+   u_decompose_hangul s = Some (if t =? 0 then (L_BASE + l, V_BASE + v) else (s - t, T_BASE + t))).
+Proof. intros Hl Hv Ht. split; [apply arith_shaper|apply arith_unicode]; assumption. Qed.
+
+Section Corollaries.
+Variables (has zw : N -> bool) (lvl : N) (nd : bool).
+Notation STEP := (step has zw lvl nd).
+
+(* combining jamo whose syllable the font lacks stay, tagged *)
+Lemma unsupported_LVT ro L V T suf st en :
+  is_combining_l (cp L) = true -> is_combining_v (cp V) = true -> is_combining_t (cp T) = true ->
+  has (compose_s (cp L) (cp V) (cp T - T_BASE)) = false -> lvl = HANGUL_MERGE_LEVEL ->
+  let c := N.min (N.min (cl L) (cl V)) (cl T) in
+  exists s', STEP (mkS ro (L :: V :: T :: suf) st en) = Some s' /\
+    map erase (rout s') = mkI (cp T) c TJMO false true :: mkI (cp V) c VJMO false true
+                          :: mkI (cp L) c LJMO false (cont L) :: map erase (set_while (cl L) c ro) /\
+    rest s' = set_while (cl T) c suf /\ sstart s' = length ro /\ send s' = (length ro + 3)%nat.
+Proof.
+  intros HL HV HT Hh Hl. apply tagged_LVT_graphemes; try assumption.
+  - apply combining_l_facts; assumption.
+  - apply combining_v_facts; assumption.
+  - apply combining_t_facts; assumption.
+  - rewrite Hh. apply andb_false_r.
+Qed.
+Lemma unsupported_LV ro L V suf st en :
+  is_combining_l (cp L) = true -> is_combining_v (cp V) = true -> no_t suf ->
+  has (compose_s (cp L) (cp V) 0) = false -> lvl = HANGUL_MERGE_LEVEL ->
+  let c := N.min (cl L) (cl V) in
+  exists s', STEP (mkS ro (L :: V :: suf) st en) = Some s' /\
+    map erase (rout s') = mkI (cp V) c VJMO false true :: mkI (cp L) c LJMO false (cont L)
+                          :: map erase (set_while (cl L) c ro) /\
+    rest s' = set_while (cl V) c suf /\ sstart s' = length ro /\ send s' = (length ro + 2)%nat.
+Proof.
+  intros HL HV Hs Hh Hl. apply tagged_LV_graphemes; try assumption.
+  - apply combining_l_facts; assumption.
+  - apply combining_v_facts; assumption.
+  - rewrite Hh. apply andb_false_r.
+Qed.
+(* old Hangul: some jamo outside the modern combining ranges: never composed, whatever the font has *)
+Lemma old_hangul_LVT ro L V T suf st en :
+  is_l (cp L) = true -> is_v (cp V) = true -> is_t (cp T) = true ->
+  is_combining_l (cp L) && is_combining_v (cp V) && is_combining_t (cp T) = false ->
+  exists s', STEP (mkS ro (L :: V :: T :: suf) st en) = Some s' /\
+    map cp (rout s') = cp T :: cp V :: cp L :: map cp ro /\
+    map feat (firstn 3 (rout s')) = [TJMO; VJMO; LJMO] /\ send s' = (length ro + 3)%nat.
+Proof.
+  intros HL HV HT Hold.
+  assert (Hnc : is_combining_l (cp L) && is_combining_v (cp V) && is_combining_t (cp T)
+                && has (compose_s (cp L) (cp V) (cp T - T_BASE)) = false) by (rewrite Hold; reflexivity).
+  assert (Hfe : forall l, map feat (map erase l) = map feat l) by (intros; rewrite map_map; reflexivity).
+  destruct (lvl =? HANGUL_MERGE_LEVEL) eqn:El.
+  - apply N.eqb_eq in El. destruct (tagged_LVT_graphemes has zw lvl nd ro L V T suf st en HL HV HT Hnc El) as (s' & Hs & Hr & _ & _ & He).
+    exists s'. split; [exact Hs|]. repeat split; [| |exact He].
+    + rewrite <- (cp_erase (rout s')), Hr. cbn [map cp]. rewrite cp_erase, cps_set_while. reflexivity.
+    + rewrite <- Hfe, <- firstn_map, Hr. reflexivity.
+  - apply N.eqb_neq in El. destruct (tagged_LVT_characters has zw lvl nd ro L V T suf st en HL HV HT Hnc El) as (s' & Hs & Hr & _ & _ & He).
+    exists s'. split; [exact Hs|]. repeat split; [| |exact He].
+    + rewrite <- (cp_erase (rout s')), Hr. cbn [map cp]. rewrite cp_erase. reflexivity.
+    + rewrite <- Hfe, <- firstn_map, Hr. reflexivity.
+Qed.
+End Corollaries.
+
+(* the named old-Hangul blocks of the property are such jamo *)
+Lemma old_blocks l v t :
+  ((4371 <= l <= 4447) \/ (43360 <= l <= 43388)) \/ ((4470 <= v <= 4519) \/ v = 4448 \/ (55216 <= v <= 55238))
+  \/ ((4547 <= t <= 4607) \/ (55243 <= t <= 55291)) ->
+  is_combining_l l && is_combining_v v && is_combining_t t = false.
+Proof. unf_preds. lia. Qed.
+
+(* ---------------- finding: <LV,T> whose LV the font lacks: T is neither tagged nor merged *)
+Definition jamo_only_font (c : N) : bool := negb (is_combined_s c).
+Lemma lv_t_unsupported_lv_witness :
+  run jamo_only_font (fun _ => false) HANGUL_MERGE_LEVEL false (mk_input [(44032, 0); (4520, 1)])
+  = Some [mkI 4352 0 LJMO false false; mkI 4449 0 VJMO false true; mkI 4520 1 0 false false].
+Proof. vm_compute. reflexivity. Qed.
+(* the same text when the font has LV (but not LVT): the three jamo are one tagged syllable *)
+Definition no_lvt_font (c : N) : bool := negb (is_combined_s c) || (tindex_of c =? 0).
+Lemma lv_t_supported_lv_witness :
+  run no_lvt_font (fun _ => false) HANGUL_MERGE_LEVEL false (mk_input [(44032, 0); (4520, 1)])
+  = Some [mkI 4352 0 LJMO false false; mkI 4449 0 VJMO false true; mkI 4520 0 TJMO false true].
+Proof. vm_compute. reflexivity. Qed.
